@@ -88,6 +88,9 @@ CASES = [
     S("s-one-plus-alpha", "transform: (1 + alpha)", ("(1 - self.alpha) * X_use", "(1 + self.alpha) * X_use")),
     S("s-split-return-only", "_split_X returns (sensitive, other) but the callers are unchanged",
       ("        return X[:, non_sensitive], X[:, sensitive]\n", "        return X[:, sensitive], X[:, non_sensitive]\n")),
+    S("s-split-temps-crossed", "_split_X: temporaries for the two blocks, filled the wrong way round",
+      ("        return X[:, non_sensitive], X[:, sensitive]\n",
+       "        X_other = X[:, sensitive]\n        X_sens = X[:, non_sensitive]\n        return X_other, X_sens\n")),
     S("s-split-in", "_split_X: `if i in sensitive`", ("if i not in sensitive]", "if i in sensitive]")),
     S("s-split-no-lookup", "_split_X: ids used without the lookup", ("[self.lookup_[i] for i in self.sensitive_feature_ids]", "[i for i in self.sensitive_feature_ids]")),
     S("s-split-rows", "_split_X: cuts rows", ("        return X[:, non_sensitive], X[:, sensitive]\n", "        return X[non_sensitive, :], X[:, sensitive]\n")),
